@@ -64,6 +64,7 @@ type c09Addr struct{ In, Want string }
 var c09Addrs = []c09Addr{
 	{"N0CALL", "N0CALL"}, {"n0call", "N0CALL"}, {"LA5NTA@winlink.org", "LA5NTA"}, {"la5nta@WINLINK.ORG", "LA5NTA"},
 	{"foo@bar.baz", "SMTP:foo@bar.baz"}, {"SMTP:x@y.z", "SMTP:x@y.z"},
+	{"sysop@cms.winlink.org", "SMTP:sysop@cms.winlink.org"}, {"Bob@NotWinlink.org", "SMTP:Bob@NotWinlink.org"}, // only the domain winlink.org itself is Winlink
 }
 
 var c09Subjects = []string{
